@@ -1,18 +1,22 @@
 """Freeze the C01 tolerance table from calibration runs (NVERIF_CALIBRATE=1 ./check C01 thorough).
 
 tol[method|n|cfg] = 10**ceil(log10(100 * max observed err/U)), at least 1e3; cells that would need
-more than 1e6 get null (weak: no envelope asserted).  multicomplex n=2 (whose maxima on the
-unchanged tree are the known findings F9/F18) inherits the multicomplex n=1 value.
+more than 1e6 get null (weak: no envelope asserted).  The classes default+illcond / default+range / user+... get no entry (weak).
 """
 import collections, glob, json, math, os, sys
 ROOT = os.path.dirname(os.path.dirname(os.path.abspath(__file__)))
 files = sorted(glob.glob(os.path.join(ROOT, 'calibration', 'c01_seed*.json')))
 worst = collections.defaultdict(float)
 count = collections.Counter()
+# multicomplex cells: only runs made after the F22 repair with the known finding classes
+# (F9, F11, F18, inverse functions at tiny arguments) excluded from the maxima
+MC_FILES = ('c01_seed61.json',)
 for f in files:
     c = json.load(open(f))['coverage']
     for k, v in c['worst_ratios'].items():
         if k.startswith('err/U|'):
+            if k.startswith('err/U|multicomplex') and os.path.basename(f) not in MC_FILES:
+                continue
             worst[k[6:]] = max(worst[k[6:]], v['value'])
     for k, v in c['classes'].items():
         if k.startswith('cell|'):
@@ -20,13 +24,11 @@ for f in files:
 table = {}
 for key in sorted(worst):
     m, n, cfg = key.split('|')
-    if m == 'multicomplex' and n == '2':
-        continue
+    if '+' in cfg:
+        continue            # ill-conditioned / extreme-range classes stay weak
     need = 100.0 * max(worst[key], 1e-300)
     tol = max(1e3, 10.0 ** math.ceil(math.log10(need)))
     table[key] = tol if tol <= 1e6 else None
-for cfg in ('default', 'user'):
-    table['multicomplex|2|%s' % cfg] = table.get('multicomplex|1|%s' % cfg)
 p = os.path.join(ROOT, 'nverif', 'constants.json')
 d = json.load(open(p)) if os.path.exists(p) else {}
 d['C01_tol'] = table
